@@ -312,14 +312,14 @@ type orderRules struct {
 // reportOrderEvents turns the engine's events into obligations.
 func reportOrderEvents(p *Program, r *Report, or *orderRun, rules orderRules) (nPair, nSink int) {
 	type agg struct {
-		key    string
-		pos    string
-		bad    *oEvent
-		und    *oEvent
-		whyBad string
-		whyUnd string
-		okWhy  string
-		n      int
+		key      string
+		pos      string
+		bad      *oEvent
+		und      *oEvent
+		whyBad   string
+		whyUnd   string
+		okWhy    string
+		n        int
 		resolved bool
 	}
 	pairs := map[string]*agg{}
@@ -399,7 +399,7 @@ func reportOrderEvents(p *Program, r *Report, or *orderRun, rules orderRules) (n
 			a.n++
 			if !e.Have.compatible(e.Need) {
 				if a.bad == nil {
-					a.bad, a.whyBad = e, fmt.Sprintf("%s may be in the %s layout but %s works in the %s layout: positions are read in the wrong coordinate system", e.NameA, (e.Have &^ (e.Need | crdBoth)).String(), e.What, e.Need.String())
+					a.bad, a.whyBad = e, fmt.Sprintf("%s may be in the %s layout but %s works in the %s layout: positions are read in the wrong coordinate system", e.NameA, (e.Have&^(e.Need|crdBoth)).String(), e.What, e.Need.String())
 				}
 			} else {
 				a.okWhy = fmt.Sprintf("%s is in the %s layout, as %s needs (%s)", e.NameA, e.Have.String(), e.What, e.Need.String())
@@ -752,7 +752,9 @@ func checkCoverageGate(p *Program, r *Report) {
 		r.Undecided("R14c", key, p.Pos(fn.Pos()), "cannot identify the wants / proof parameters")
 		return
 	}
-	fromWants := func(v ssa.Value) bool { return flowsFrom(v, func(x ssa.Value) bool { return x == wants }, 0, map[ssa.Value]bool{}) }
+	fromWants := func(v ssa.Value) bool {
+		return flowsFrom(v, func(x ssa.Value) bool { return x == wants }, 0, map[ssa.Value]bool{})
+	}
 	fromTargets := func(v ssa.Value) bool {
 		return flowsFrom(v, func(x ssa.Value) bool {
 			if f, ok := x.(*ssa.Field); ok && f.X == proof && fieldName(proof.Type(), f.Field) == "Targets" {
@@ -1056,68 +1058,81 @@ func checkNoSilentHole(p *Program, r *Report) {
 			r.MissingAnchor("R02c", name, "prover not found")
 			continue
 		}
-		// fetch sites: calls in a loop whose result (a Hash or a (Leaf,bool)) feeds the proof hashes
-		for _, b := range fn.Blocks {
-			for _, in := range b.Instrs {
-				c, ok := in.(*ssa.Call)
-				if !ok {
-					continue
+		// fetch sites: calls in a loop whose result (a Hash or a (Leaf,bool)) feeds the proof hashes;
+		// searched in the prover and in the helpers of the same receiver it calls
+		// (the fetch loop may have been extracted into a method)
+		scope := []*ssa.Function{fn}
+		for _, sc := range callsIn(p, fn) {
+			if callee := sc.call.Common().StaticCallee(); callee != nil && p.owns(callee) && callee.Signature.Recv() != nil && fn.Signature.Recv() != nil &&
+				types.Identical(callee.Signature.Recv().Type(), fn.Signature.Recv().Type()) && errorResultIndex(callee.Signature) >= 0 {
+				if v := errChain(sc.call, ErrChainOpts{}); v.OK {
+					scope = append(scope, callee)
 				}
-				hdr, _ := enclosingRangeIndex(b)
-				if hdr == nil {
-					continue
-				}
-				res := c.Common().Signature().Results()
-				var fetched bool
-				var okFlag ssa.Value
-				var hashVal ssa.Value
-				switch {
-				case res.Len() == 1 && isHashType(res.At(0).Type()) && c.Common().StaticCallee() != nil && p.owns(c.Common().StaticCallee()) && len(c.Common().Args) == 2 && isUint64(c.Common().Args[1].Type()):
-					fetched, hashVal = true, c
-				case res.Len() == 2 && c.Common().IsInvoke() && c.Common().Method.Name() == "Get" && p.localNamed(res.At(0).Type(), "Leaf") && isUint64(c.Common().Args[0].Type()):
-					fetched = true
-					okFlag = resultValue(c, 1)
-				}
-				if !fetched {
-					continue
-				}
-				// only fetches whose position comes from the proof-position list
-				n++
-				key := fmt.Sprintf("%s/fetch->%s", name, exprName(c))
-				guarded := false
-				// find an If in the loop body testing the hash against empty or the ok flag
-				for _, bb := range fn.Blocks {
-					if len(bb.Instrs) == 0 || !(b == bb || b.Dominates(bb)) {
-						continue
-					}
-					iff, ok := bb.Instrs[len(bb.Instrs)-1].(*ssa.If)
+			}
+		}
+		for _, fn := range scope {
+			for _, b := range fn.Blocks {
+				for _, in := range b.Instrs {
+					c, ok := in.(*ssa.Call)
 					if !ok {
 						continue
 					}
-					var errSucc *ssa.BasicBlock
-					if okFlag != nil && iff.Cond == okFlag {
-						errSucc = bb.Succs[1]
-					} else if bo, ok := iff.Cond.(*ssa.BinOp); ok && hashVal != nil && (bo.X == hashVal || bo.Y == hashVal) {
-						other := bo.Y
-						if bo.Y == hashVal {
-							other = bo.X
+					hdr, _ := enclosingRangeIndex(b)
+					if hdr == nil {
+						continue
+					}
+					res := c.Common().Signature().Results()
+					var fetched bool
+					var okFlag ssa.Value
+					var hashVal ssa.Value
+					switch {
+					case res.Len() == 1 && isHashType(res.At(0).Type()) && c.Common().StaticCallee() != nil && p.owns(c.Common().StaticCallee()) && len(c.Common().Args) == 2 && isUint64(c.Common().Args[1].Type()):
+						fetched, hashVal = true, c
+					case res.Len() == 2 && c.Common().IsInvoke() && c.Common().Method.Name() == "Get" && p.localNamed(res.At(0).Type(), "Leaf") && isUint64(c.Common().Args[0].Type()):
+						fetched = true
+						okFlag = resultValue(c, 1)
+					}
+					if !fetched {
+						continue
+					}
+					// only fetches whose position comes from the proof-position list
+					n++
+					key := fmt.Sprintf("%s/fetch->%s", name, exprName(c))
+					guarded := false
+					// find an If in the loop body testing the hash against empty or the ok flag
+					for _, bb := range fn.Blocks {
+						if len(bb.Instrs) == 0 || !(b == bb || b.Dominates(bb)) {
+							continue
 						}
-						if isEmptyGlobal(other) {
-							if bo.Op.String() == "==" {
-								errSucc = bb.Succs[0]
-							} else if bo.Op.String() == "!=" {
-								errSucc = bb.Succs[1]
+						iff, ok := bb.Instrs[len(bb.Instrs)-1].(*ssa.If)
+						if !ok {
+							continue
+						}
+						var errSucc *ssa.BasicBlock
+						if okFlag != nil && iff.Cond == okFlag {
+							errSucc = bb.Succs[1]
+						} else if bo, ok := iff.Cond.(*ssa.BinOp); ok && hashVal != nil && (bo.X == hashVal || bo.Y == hashVal) {
+							other := bo.Y
+							if bo.Y == hashVal {
+								other = bo.X
+							}
+							if isEmptyGlobal(other) {
+								if bo.Op.String() == "==" {
+									errSucc = bb.Succs[0]
+								} else if bo.Op.String() == "!=" {
+									errSucc = bb.Succs[1]
+								}
 							}
 						}
+						if errSucc != nil && blockReturnsNonNilError(errSucc) {
+							guarded = true
+						}
 					}
-					if errSucc != nil && blockReturnsNonNilError(errSucc) {
-						guarded = true
+					if guarded {
+						r.Discharge("R02c", key, posOf(p, c), "the fetched hash is tested and the missing case returns a non-nil error", true)
+					} else {
+						r.Violate("R02c", key, posOf(p, c), "a hash fetched for the proof is not tested for absence with an error return: a proof with a hole could be returned as success", "in "+name)
 					}
-				}
-				if guarded {
-					r.Discharge("R02c", key, posOf(p, c), "the fetched hash is tested and the missing case returns a non-nil error", true)
-				} else {
-					r.Violate("R02c", key, posOf(p, c), "a hash fetched for the proof is not tested for absence with an error return: a proof with a hole could be returned as success", "in "+name)
 				}
 			}
 		}
